@@ -371,6 +371,26 @@ def init_aliases(fi):
         if isinstance(st, ast.Assign) and len(st.targets) == 1 and isinstance(st.targets[0], ast.Attribute) and isinstance(st.targets[0].value, ast.Name) \
                 and st.targets[0].value.id == "self" and isinstance(st.value, ast.Name) and st.value.id in params and st.value.id not in rebound:
             out.setdefault(st.value.id, f"self.{st.targets[0].attr}")
+    # a local bound once to an attribute that this function never stores: `ranges = self.byte_ranges`
+    stores = {}
+    attr_stored = set()
+    for n in fi.own_nodes():
+        if isinstance(n, (ast.Assign, ast.AugAssign, ast.AnnAssign)):
+            for t in (n.targets if isinstance(n, ast.Assign) else [n.target]):
+                for x in ast.walk(t):
+                    if isinstance(x, ast.Name) and isinstance(x.ctx, ast.Store):
+                        stores[x.id] = stores.get(x.id, 0) + 1
+                    if isinstance(x, ast.Attribute) and isinstance(x.value, ast.Name) and x.value.id == "self":
+                        attr_stored.add(x.attr)
+        elif isinstance(n, (ast.For, ast.comprehension, ast.With, ast.NamedExpr)):
+            tgt = n.target if not isinstance(n, ast.With) else None
+            for x in (ast.walk(tgt) if tgt is not None else []):
+                if isinstance(x, ast.Name):
+                    stores[x.id] = stores.get(x.id, 0) + 2
+    for st in fi.node.body:
+        if isinstance(st, ast.Assign) and len(st.targets) == 1 and isinstance(st.targets[0], ast.Name) and stores.get(st.targets[0].id) == 1 and st.targets[0].id not in params \
+                and isinstance(st.value, ast.Attribute) and isinstance(st.value.value, ast.Name) and st.value.value.id == "self" and st.value.attr not in attr_stored:
+            out.setdefault(st.targets[0].id, f"self.{st.value.attr}")
     return out
 
 
